@@ -412,7 +412,13 @@ class Machine:
                 from niltype import Nil
                 return Nil
             if k == "$schemas":
-                return [(... if y == "..." else self.sch(y)) for y in x]
+                def one(y):
+                    if y == "...":
+                        return ...
+                    if isinstance(y, list):           # a nested native list of schemas (refused today)
+                        return [one(z) for z in y]
+                    return self.sch(y)
+                return [one(y) for y in x]
             if k == "$schemadict":
                 d = {}
                 for kk, opt, y in x:
@@ -826,6 +832,15 @@ class OpGen:
                 return w
             if y < 0.65:
                 return S.partial_of(w, r, 0.4)
+            if y < 0.70 and type(w) is dict and any(type(k) is str and type(x) is dict for k, x in w.items()):
+                # a flattened key next to the nested dict it points into ("user": {...} and "user.age": 1)
+                kk = r.choice([k for k, x in w.items() if type(k) is str and type(x) is dict])
+                sub = w[kk]
+                leaf = r.choice([k for k in sub if type(k) is str] or ["age"])
+                w["%s.%s" % (kk, leaf)] = sub.get(leaf, 42)
+                if r.random() < 0.5:
+                    w["%s.%s" % (kk, "zz")] = None
+                return w
             if y < 0.75 and type(w) is dict:
                 w["__extra__"] = r.choice((1, None, [1], {"k": 1}))     # undeclared keys
                 if r.random() < 0.6:
@@ -924,6 +939,8 @@ class OpGen:
                 ids = [self.pick_sid() for _ in range(r.randint(0, 3))]
                 if r.random() < 0.3:
                     ids.insert(r.choice((0, len(ids))), "...")
+                if r.random() < 0.15:
+                    ids.insert(r.randint(0, len(ids)), [self.pick_sid() for _ in range(r.randint(0, 2))])
                 args.append({"$schemas": ids})
             elif x < 0.27 and name == "__call__" and self.m.schemas:
                 items = []
@@ -991,6 +1008,8 @@ class OpGen:
                 if not (has("elements") or has("type") or has("len") or has("min_len") or has("max_len")):
                     cands.append(["__call__", {"$schema": self.pick_sid()}])
                     cands.append(["__call__", {"$schemas": [self.pick_sid() for _ in range(r.randint(0, 3))]}])
+                    if r.random() < 0.2:
+                        cands.append(["__call__", {"$schemas": [self.pick_sid(), [self.pick_sid(), self.pick_sid()]]}])
             elif kind == "DictSchema" and not has("keys"):
                 cands.append(["__call__", {"$schemadict": [[enc(kk), r.random() < 0.3, self.pick_sid()] for kk in r.sample(("a", "b", "id"), r.randint(0, 3))]}])
             elif kind == "AnySchema" and not has("types"):
@@ -1264,7 +1283,9 @@ class Prop(BaseProp):
     # ------------------------------------------------------------ cases
     def gen_case(self, labels, cfg):
         r = _real_random.Random(derive(*labels, "case"))
-        return {"mode": "generate", "seed": derive(*labels, "hist"), "steps": r.randint(cfg.get("min_steps", 20), cfg.get("max_steps", 60))}
+        every = cfg.get("rerun_every", 1)
+        return {"mode": "generate", "seed": derive(*labels, "hist"), "steps": r.randint(cfg.get("min_steps", 20), cfg.get("max_steps", 60)),
+                "rerun": ((labels[-1] // 16) % every == 0) if isinstance(labels[-1], int) else True}   # per sweep worker: every n-th of *its* histories
 
     def _knobs(self, r):
         k = S.Knobs(r)
@@ -1349,10 +1370,11 @@ class Prop(BaseProp):
         # set/frozenset value (CPython prints sets in hash order, and error messages print values)
         import json as _json
         text = _json.dumps(m.oplog, default=str)
-        hs_sensitive = ("[^" in text) or ("$set" in text) or ("$frozenset" in text) or ("class_neg" in text) or ('"neg": true' in text)
-        # across hash seeds exception *messages* are left out: they print whatever value was refused, and
-        # Python prints equal sets in hash order
-        d_hs = fast_digest([o[:2] if o[0] == "raise" else o for o in m.outcomes])
+        hs_sensitive = ("[^" in text) or ("$set" in text) or ("$frozenset" in text) or ("class_neg" in text) or ('"neg": true' in text) \
+            or ('"alphabet_as": "set"' in text) or ('"alphabet_as": "frozenset"' in text)
+        # (messages quote the refused value and Python prints equal sets in hash order: every way a set can
+        # enter a history -- values, a set-typed alphabet -- makes it hs_sensitive above)
+        d_hs = d
         return {"executions": max(1, len(m.oplog)), "violations": violations, "keys": keys,
                 "digest": d, "digest_hs": None if hs_sensitive else d_hs, "sample": sample}
 
